@@ -251,6 +251,12 @@ def bumpN (inp : Input) : Nat → Loc → Loc
     | none => l
     | some (_, l') => bumpN inp k l'
 
+/-- `self.bump();` with the result ignored. -/
+def bumpLoc (inp : Input) (l : Loc) : Loc :=
+  match bump inp l with
+  | some (_, l') => l'
+  | none => l
+
 /-- token.rs:388 `skip_to_end`. -/
 def skipToEnd (inp : Input) (l : Loc) : Loc :=
   if h : l.abs < inp.size then skipToEnd inp (l.shift inp[l.abs]) else l
@@ -293,7 +299,7 @@ def wsLenHead : List Nat → Nat
 
 /-- `trim_start` on the slice `[s, e)`: the new start. -/
 def trimStart (inp : Input) (s e : Nat) : Nat :=
-  if h : s < e then
+  if _h : s < e then
     let k := wsLenHead (bytesAt inp s (min e (s + 3)))
     if k = 0 then s else trimStart inp (s + k) e
   else s
@@ -314,7 +320,7 @@ def wsLenLast : List Nat → Nat
 
 /-- `trim_end` on the slice `[s, e)`: the new end. -/
 def trimEnd (inp : Input) (s e : Nat) : Nat :=
-  if h : s < e then
+  if _h : s < e then
     let k := wsLenLast (bytesAt inp (max s (e - 3)) e).reverse
     if k = 0 then e else if k ≤ e - s then trimEnd inp s (e - k) else e
   else e
@@ -655,9 +661,7 @@ def blockLoop (inp : Input) (start : Loc) (l : Loc) : Res (Out ⊕ (Option STok 
   | .panic m => .panic m
   | .hang => .hang
   | .ok (l1, (s, e)) =>
-    let l2 := match bump inp l1 with
-      | some (_, l2) => l2
-      | none => l1
+    let l2 := bumpLoc inp l1          -- skip the `*` found
     match bump inp l2 with
     | some (b, l3) =>
       if b == 47 then
@@ -683,10 +687,7 @@ decreasing_by omega
 
 /-- token.rs:475 `block_comment(start)`; `l` is the location after the first `/`. -/
 def blockComment (inp : Input) (start : Loc) (l : Loc) : Res (Out ⊕ (Option STok × Loc)) :=
-  let l1 := match bump inp l with        -- skip the first `*`
-    | some (_, l1) => l1
-    | none => l
-  blockLoop inp start l1
+  blockLoop inp start (bumpLoc inp l)      -- skip the first `*`
 
 /-- token.rs:625 `shebang_line(start)`. -/
 def shebangLine (inp : Input) (start : Loc) (l : Loc) : Res (Option STok × Loc) := do
